@@ -3,6 +3,8 @@
 # Like applyfix.sh, but also regenerates the shipped prebuilt parser (bison 3.8.2 reproduces the shipped files
 # byte for byte from the unmodified grammar, so the regenerated diff contains the grammar change only).
 set -e
+# one fixer at a time: the patch is applied to /repo's working tree while the baseline runs
+exec 9>/var/tmp/applyfix.lock; flock 9
 D="$1"; M="$2"
 cd /repo
 git apply --check "$D" || { echo "DOES-NOT-APPLY $D"; exit 3; }
